@@ -5,9 +5,9 @@ trusted base and its size is reported in the evidence."""
 
 REVIEWED = {
     # --- IdpfPublicShare::decode_with_param: relations between `bits` and the packed bit vector
-    "<idpf::IdpfPublicShare<VI, VL> as codec::ParameterizedDecode<usize>>::decode_with_param|call:index|BitVec::<T, O>::from_vec(φ)|Range{0, ($1 Mul 2)}":
+    '<idpf::IdpfPublicShare<VI, VL> as codec::ParameterizedDecode<usize>>::decode_with_param|call:index|BitVec::<T, O>::from_vec(φ)|Range{0, (2 Mul $1)}':
         "the bit vector has 8*ceil(bits/4) >= 2*bits bits (built from vec![0; bits.div_ceil(4)] two lines above)",
-    "<idpf::IdpfPublicShare<VI, VL> as codec::ParameterizedDecode<usize>>::decode_with_param|call:index|BitVec::<T, O>::from_vec(φ)|RangeFrom{($1 Mul 2)}":
+    '<idpf::IdpfPublicShare<VI, VL> as codec::ParameterizedDecode<usize>>::decode_with_param|call:index|BitVec::<T, O>::from_vec(φ)|RangeFrom{(2 Mul $1)}':
         "same relation: 2*bits <= 8*ceil(bits/4)",
     "<idpf::IdpfPublicShare<VI, VL> as codec::ParameterizedDecode<usize>>::decode_with_param|index-call|(<Chunks<'a, T, O> as Iterator>::next(φ) as Some).0|0":
         "chunks(2) of a slice of even length 2*bits yields chunks of exactly 2 bits",
@@ -36,7 +36,7 @@ REVIEWED = {
         'documented expect: output_share has one element per candidate prefix and Poplar1AggregationParam holds at most u32::MAX prefixes',
     '<vdaf::prio2::Prio2 as vdaf::Client<16>>::shard::{closure#0}|call:clone_from_slice|<impl IndexMut<I> for [T]>::index_mut($2, RangeFull{})|^^1':
         'share_data is the `dimension`-long data part handed out by unpack_proof_mut and input has measurement.len() == input_len elements (checked at the top of shard)',
-    '<vdaf::prio3::Prio3<T, P, SEED_SIZE> as vdaf::Aggregator<SEED_SIZE, 16>>::verify_init|call:index|Prio3::<T, P, SEED_SIZE>::derive_query_rands($1, $2, $3, $6)|Range{((<impl Iterator for Range<A>>::next(φ) as Some).0 Mul Flp::query_rand_len($1.typ)), (((<impl Iterator for Range<A>>::next(φ) as Some).0 Add 1) Mul Flp::q':
+    '<vdaf::prio3::Prio3<T, P, SEED_SIZE> as vdaf::Aggregator<SEED_SIZE, 16>>::verify_init|call:index|Prio3::<T, P, SEED_SIZE>::derive_query_rands($1, $2, $3, $6)|Range{(Flp::query_rand_len($1.typ) Mul (<impl Iterator for Range<A>>::next(φ) as Some).0), ((1 Add (<impl Iterator for Range<A>>::next(φ) as Some).0) Mul Flp::q':
         'query_rands has query_rand_len() * num_proofs() elements (into_field_vec of exactly that length) and p ranges over 0..num_proofs()',
     'codec::encode_u16_items|call:copy_from_slice|<Vec<T, A> as IndexMut<I>>::index_mut($1, Range{len($1), (len($1) Add 2)})|<impl u16>::to_be_bytes(Result::<T, E>::map_err(<impl TryFrom<usize> for u16>::try_from(((len($1) Sub len($1)) Sub 2)), closure {closure#0}[])?)':
         'length-prefix back-patching over a growing Vec: len_offset was recorded before a placeholder of the prefix width was pushed, so bytes.len() >= len_offset + width at the later reads (the reconstructed terms cannot distinguish the two len() reads)',
@@ -60,7 +60,7 @@ REVIEWED = {
         'length-prefix back-patching over a growing Vec: len_offset was recorded before a placeholder of the prefix width was pushed, so bytes.len() >= len_offset + width at the later reads (the reconstructed terms cannot distinguish the two len() reads)',
     'codec::encode_u8_items|overflow:Sub|len($1)|len($1)':
         'length-prefix back-patching over a growing Vec: len_offset was recorded before a placeholder of the prefix width was pushed, so bytes.len() >= len_offset + width at the later reads (the reconstructed terms cannot distinguish the two len() reads)',
-    'flp::Flp::query::{closure#0}|call:index|^^1|Range{^^1, (^^1 Add (Gadget::arity($2.0.pointer) Add gadget_poly_len(Gadget::degree($2.0.pointer), wire_poly_len(Gadget::calls($2.0.pointer)))))}':
+    'flp::Flp::query::{closure#0}|call:index|^^1|Range{^^1, ((Gadget::arity($2.0.pointer) Add gadget_poly_len(Gadget::degree($2.0.pointer), wire_poly_len(Gadget::calls($2.0.pointer)))) Add ^^1)}':
         'len(proof) was pinned to proof_len() = sum(arity + gadget_poly_len) by the guard at the top of query; the closure walks exactly that layout',
     'flp::Flp::query|call:unwrap|TryFrom::try_from(wire_poly_len(Gadget::calls((<Zip<A, B> as Iterator>::next(φ) as Some).0.0.0.pointer)))':
         "wire_poly_len(calls) <= proof_len, and a circuit whose wire polynomial length does not fit the field's integer type cannot be instantiated (NTT size limit 2^20)",
@@ -74,7 +74,7 @@ REVIEWED = {
         'size = npo2(degree*(p-1)+1) >= p for every gadget of degree >= 1 (all in-crate gadgets have degree >= 2), and size/p <= 2*degree so the shift amount is tiny',
     'flp::QueryShimGadget::<F>::new|overflow:Sub|log2((<impl usize>::next_power_of_two(gadget_poly_len(Gadget::degree($1.0.pointer), wire_poly_len(Gadget::calls($1.0.pointer)))) as u128))|log2((wire_poly_len(Gadget::calls($1.0.pointer)) as u128))':
         'size = npo2(degree*(p-1)+1) >= p for every gadget of degree >= 1 (all in-crate gadgets have degree >= 2), and size/p <= 2*degree so the shift amount is tiny',
-    'flp::gadget_poly_len|overflow:Add|($1 Mul ($2 Sub 1))|1':
+    'flp::gadget_poly_len|overflow:Add|(($2 Sub 1) Mul $1)|1':
         'A1: the gadget polynomial is materialised in the proof buffer, so degree*(wire_poly_len-1)+1 is an in-memory length',
     'flp::gadget_poly_len|overflow:Mul|$1|($2 Sub 1)':
         'A1: the gadget polynomial is materialised in the proof buffer, so degree*(wire_poly_len-1)+1 is an in-memory length',
@@ -84,13 +84,13 @@ REVIEWED = {
         'Idpf::eval refuses an empty prefix before building cache_key, so cache_key.len() >= 1',
     'vdaf::prio2::Prio2::verify_init_with_query_rand|call:index|($3 as Leader).0|RangeTo{$1.input_len}':
         "generate_verification_message(..)? succeeded, so unpack_proof's guard pinned len(data) to proof_length(input_len) = input_len + 3 + n >= input_len",
-    'vdaf::prio3::Prio3::<T, P, SEED_SIZE>::shard_with_random|call:index|Option::<T>::unwrap_or_default(Option::<T>::map(Prio3PublicShare{Option::<Result<T, E>>::transpose(Option::<T>::map(φ, closure Prio3::<T, P, SEED_SIZE>::{closur|Range{((<impl Iterator for Range<A>>::next(φ) as Some).0 Mul Flp::joint_rand_len($1.typ)), (((<impl Iterator for Range<A>>::next(φ) as Some).0 Add 1) Mul Flp::j':
+    'vdaf::prio3::Prio3::<T, P, SEED_SIZE>::shard_with_random|call:index|Option::<T>::unwrap_or_default(Option::<T>::map(Prio3PublicShare{Option::<Result<T, E>>::transpose(Option::<T>::map(φ, closure Prio3::<T, P, SEED_SIZE>::{closur|Range{(Flp::joint_rand_len($1.typ) Mul (<impl Iterator for Range<A>>::next(φ) as Some).0), ((1 Add (<impl Iterator for Range<A>>::next(φ) as Some).0) Mul Flp::j':
         'joint_rands has joint_rand_len() * num_proofs() elements (empty when joint_rand_len() == 0) and p ranges over 0..num_proofs()',
-    "vdaf::prio3::Prio3::<T, P, SEED_SIZE>::shard_with_random|call:index|Prio3::<T, P, SEED_SIZE>::derive_prove_rands($1, $2, Seed::<SEED_SIZE>::from_bytes(Option::<T>::unwrap(<Iter<'a, T> as Iterator>::next(φ))))|Range{((<impl Iterator for Range<A>>::next(φ) as Some).0 Mul Flp::prove_rand_len($1.typ)), (((<impl Iterator for Range<A>>::next(φ) as Some).0 Add 1) Mul Flp::p":
+    "vdaf::prio3::Prio3::<T, P, SEED_SIZE>::shard_with_random|call:index|Prio3::<T, P, SEED_SIZE>::derive_prove_rands($1, $2, Seed::<SEED_SIZE>::from_bytes(Option::<T>::unwrap(<Iter<'a, T> as Iterator>::next(φ))))|Range{(Flp::prove_rand_len($1.typ) Mul (<impl Iterator for Range<A>>::next(φ) as Some).0), ((1 Add (<impl Iterator for Range<A>>::next(φ) as Some).0) Mul Flp::p":
         'prove_rands has prove_rand_len() * num_proofs() elements and p ranges over 0..num_proofs()',
     'vdaf::prio3::Prio3::<T, P, SEED_SIZE>::shard_with_random|call:unwrap|<impl TryFrom<usize> for u8>::try_from((<Enumerate<I> as Iterator>::next(φ) as Some).0.0)':
         'j enumerates the helper shares: j < num_aggregators - 1 <= 253, so j fits u8 and j + 1 <= 254',
-    'vdaf::prio3::Prio3::<T, P, SEED_SIZE>::shard_with_random|overflow:Add|Result::<T, E>::unwrap(<impl TryFrom<usize> for u8>::try_from((<Enumerate<I> as Iterator>::next(φ) as Some).0.0))|1':
+    'vdaf::prio3::Prio3::<T, P, SEED_SIZE>::shard_with_random|overflow:Add|1|Result::<T, E>::unwrap(<impl TryFrom<usize> for u8>::try_from((<Enumerate<I> as Iterator>::next(φ) as Some).0.0))':
         'j enumerates the helper shares: j < num_aggregators - 1 <= 253, so j fits u8 and j + 1 <= 254',
     "flp::types::dp::<impl flp::types::l1boundsum::L1BoundSum<F, S>>::add_noise|call:unwrap|<impl TryFrom<BigInt> for BigUint>::try_from((conv($1.max_value) Mul 2))":
         "BigInt::from(an unsigned integer) * 2 is non-negative, so the conversion to BigUint cannot fail",
